@@ -707,3 +707,10 @@ func (m *Machine) sortStrs(vs []Value) {
 		vs[i] = items[i].v
 	}
 }
+
+// SamePointer: two pointer values denote the same slot.
+func SamePointer(a, b Value) bool {
+	pa, ok1 := a.(Ptr)
+	pb, ok2 := b.(Ptr)
+	return ok1 && ok2 && pa.P != nil && pa.P == pb.P
+}
